@@ -174,67 +174,75 @@ func regNative(name string, fn interface{}) {
 
 func init() {
 	for name, fn := range map[string]interface{}{
-		"strings.TrimSuffix":  strings.TrimSuffix,
-		"strings.TrimPrefix":  strings.TrimPrefix,
-		"strings.TrimSpace":   strings.TrimSpace,
-		"strings.Trim":        strings.Trim,
-		"strings.TrimLeft":    strings.TrimLeft,
-		"strings.TrimRight":   strings.TrimRight,
-		"strings.Contains":    strings.Contains,
-		"strings.ContainsAny": strings.ContainsAny,
-		"strings.ContainsRune": strings.ContainsRune,
-		"strings.Index":       strings.Index,
-		"strings.IndexByte":   strings.IndexByte,
-		"strings.IndexRune":   strings.IndexRune,
-		"strings.IndexAny":    strings.IndexAny,
-		"strings.LastIndex":   strings.LastIndex,
-		"strings.LastIndexByte": strings.LastIndexByte,
-		"strings.Count":       strings.Count,
-		"strings.Replace":     strings.Replace,
-		"strings.ReplaceAll":  strings.ReplaceAll,
-		"strings.Repeat":      strings.Repeat,
-		"strings.Fields":      strings.Fields,
-		"strings.EqualFold":   strings.EqualFold,
-		"strings.Compare":     strings.Compare,
-		"strings.SplitAfter":  strings.SplitAfter,
-		"strings.SplitAfterN": strings.SplitAfterN,
-		"strings.Cut":         strings.Cut,
-		"strings.CutPrefix":   strings.CutPrefix,
-		"strings.CutSuffix":   strings.CutSuffix,
-		"strings.Title":       strings.Title,
-		"strings.HasPrefix":   strings.HasPrefix,
-		"strings.HasSuffix":   strings.HasSuffix,
-		"strings.ToLower":     strings.ToLower,
-		"strings.ToUpper":     strings.ToUpper,
-		"strings.Split":       strings.Split,
-		"strings.SplitN":      strings.SplitN,
-		"strings.Join":        strings.Join,
-		"path/filepath.Ext":   filepath.Ext,
-		"path/filepath.Clean": filepath.Clean,
-		"path/filepath.Base":  filepath.Base,
-		"path/filepath.Dir":   filepath.Dir,
-		"path/filepath.IsAbs": filepath.IsAbs,
-		"path/filepath.Join":  filepath.Join,
-		"path/filepath.Split": filepath.Split,
-		"path/filepath.Match": filepath.Match,
-		"strconv.Itoa":        strconv.Itoa,
-		"strconv.Atoi":        strconv.Atoi,
-		"strconv.FormatInt":   strconv.FormatInt,
-		"strconv.FormatUint":  strconv.FormatUint,
-		"strconv.ParseInt":    strconv.ParseInt,
-		"strconv.ParseUint":   strconv.ParseUint,
-		"strconv.ParseFloat":  strconv.ParseFloat,
-		"strconv.ParseBool":   strconv.ParseBool,
-		"strconv.FormatBool":  strconv.FormatBool,
-		"strconv.Quote":       strconv.Quote,
-		"strconv.Unquote":     strconv.Unquote,
-		"unicode.IsUpper":     unicode.IsUpper,
-		"unicode.IsLower":     unicode.IsLower,
-		"unicode.IsLetter":    unicode.IsLetter,
-		"unicode.IsDigit":     unicode.IsDigit,
-		"unicode.IsSpace":     unicode.IsSpace,
-		"unicode.ToUpper":     unicode.ToUpper,
-		"unicode.ToLower":     unicode.ToLower,
+		"strings.TrimSuffix":             strings.TrimSuffix,
+		"strings.TrimPrefix":             strings.TrimPrefix,
+		"strings.TrimSpace":              strings.TrimSpace,
+		"strings.Trim":                   strings.Trim,
+		"strings.TrimLeft":               strings.TrimLeft,
+		"strings.TrimRight":              strings.TrimRight,
+		"strings.Contains":               strings.Contains,
+		"strings.ContainsAny":            strings.ContainsAny,
+		"strings.ContainsRune":           strings.ContainsRune,
+		"strings.Index":                  strings.Index,
+		"strings.IndexByte":              strings.IndexByte,
+		"strings.IndexRune":              strings.IndexRune,
+		"strings.IndexAny":               strings.IndexAny,
+		"strings.LastIndex":              strings.LastIndex,
+		"strings.LastIndexByte":          strings.LastIndexByte,
+		"strings.Count":                  strings.Count,
+		"strings.Replace":                strings.Replace,
+		"strings.ReplaceAll":             strings.ReplaceAll,
+		"strings.Repeat":                 strings.Repeat,
+		"strings.Fields":                 strings.Fields,
+		"strings.EqualFold":              strings.EqualFold,
+		"strings.Compare":                strings.Compare,
+		"strings.SplitAfter":             strings.SplitAfter,
+		"strings.SplitAfterN":            strings.SplitAfterN,
+		"strings.Cut":                    strings.Cut,
+		"strings.CutPrefix":              strings.CutPrefix,
+		"strings.CutSuffix":              strings.CutSuffix,
+		"strings.Title":                  strings.Title,
+		"strings.HasPrefix":              strings.HasPrefix,
+		"strings.HasSuffix":              strings.HasSuffix,
+		"strings.ToLower":                strings.ToLower,
+		"strings.ToUpper":                strings.ToUpper,
+		"strings.Split":                  strings.Split,
+		"strings.SplitN":                 strings.SplitN,
+		"strings.Join":                   strings.Join,
+		"path/filepath.Ext":              filepath.Ext,
+		"path/filepath.Clean":            filepath.Clean,
+		"path/filepath.Base":             filepath.Base,
+		"path/filepath.Dir":              filepath.Dir,
+		"path/filepath.IsAbs":            filepath.IsAbs,
+		"path/filepath.Join":             filepath.Join,
+		"path/filepath.Split":            filepath.Split,
+		"path/filepath.Match":            filepath.Match,
+		"strconv.Itoa":                   strconv.Itoa,
+		"strconv.Atoi":                   strconv.Atoi,
+		"strconv.FormatInt":              strconv.FormatInt,
+		"strconv.FormatUint":             strconv.FormatUint,
+		"strconv.ParseInt":               strconv.ParseInt,
+		"strconv.ParseUint":              strconv.ParseUint,
+		"strconv.ParseFloat":             strconv.ParseFloat,
+		"strconv.ParseBool":              strconv.ParseBool,
+		"strconv.FormatBool":             strconv.FormatBool,
+		"strconv.Quote":                  strconv.Quote,
+		"strconv.Unquote":                strconv.Unquote,
+		"strconv.QuoteToASCII":           strconv.QuoteToASCII,
+		"strconv.QuoteRune":              strconv.QuoteRune,
+		"strconv.AppendInt":              strconv.AppendInt,
+		"strconv.AppendUint":             strconv.AppendUint,
+		"strconv.AppendFloat":            strconv.AppendFloat,
+		"strconv.AppendBool":             strconv.AppendBool,
+		"strconv.AppendQuote":            strconv.AppendQuote,
+		"strconv.AppendQuoteToASCII":     strconv.AppendQuoteToASCII,
+		"unicode.IsUpper":                unicode.IsUpper,
+		"unicode.IsLower":                unicode.IsLower,
+		"unicode.IsLetter":               unicode.IsLetter,
+		"unicode.IsDigit":                unicode.IsDigit,
+		"unicode.IsSpace":                unicode.IsSpace,
+		"unicode.ToUpper":                unicode.ToUpper,
+		"unicode.ToLower":                unicode.ToLower,
 		"unicode/utf8.RuneCountInString": utf8.RuneCountInString,
 		"unicode/utf8.ValidString":       utf8.ValidString,
 		"unicode/utf8.RuneLen":           utf8.RuneLen,
